@@ -358,18 +358,24 @@ func (c *minecraftConn) bufferPacket(packet proto.Packet, canQueue bool) (err er
 		}
 	}()
 	if canQueue {
+		// Decide between queueing and writing, and do it, while holding c.mu:
+		// the play packet queue is not thread-safe, and a state change between
+		// the decision and the write would lose the packet in a stale queue or
+		// encode it for the wrong state.
 		c.mu.Lock()
-		playPacketQueue := c.playPacketQueue
+		queued, queueErr := c.playPacketQueue.Queue(packet)
+		if queueErr == nil && !queued {
+			_, err = c.wr.WritePacket(packet)
+		}
 		c.mu.Unlock()
-		queued, queueErr := playPacketQueue.Queue(packet)
 		if queueErr != nil {
 			return queueErr
 		}
 		if queued {
 			// Packet was queued, don't write it now
 			c.log.V(1).Info("queued packet", "packet", fmt.Sprintf("%T", packet))
-			return nil
 		}
+		return err
 	}
 	_, err = c.wr.WritePacket(packet)
 	return err
